@@ -180,6 +180,7 @@ def run(cx):
     cx.guard(_r10i, cx, repo)
     # ---------------- R10j
     cx.guard(_r10j, cx, repo)
+    cx.guard(_r10j_purity, cx, repo)
     # ---------------- R10k
     from rules.c08 import make_ownership
     cx.guard(make_ownership, cx, repo, "R10k")
@@ -685,3 +686,11 @@ def _r10j(cx, repo):
                 base = norm(c.func.value)
                 if base.startswith("by_value_cache[") or base.startswith("self._cache"):
                     cx.ob("R10j", c, False, f"a cached cell text is modified in place ({base}.{c.func.attr})")
+
+
+def _r10j_purity(cx, repo):
+    """The chunk-list helpers never change their list parameter in place (shared with C12 R12h)."""
+    from rules.c12 import param_purity
+    resize = cx.func("ak/color.py", "CHText.resize_chunks_list", "R10j")
+    fit = cx.func("ak/ppobj.py", "FieldType.fit_to_width", "R10j")
+    param_purity(cx, "R10j", [(resize, params(resize)[1]), (fit, params(fit)[0])])
